@@ -318,7 +318,7 @@ def run(rep, tier, seed):
     d = core.workdir("c17")
     try:
         items = assign_items(rnd, tier, 0)
-        items += random_histories(rnd, 400 if tier == "quick" else 6000, len(items))
+        items += random_histories(rnd, 1000 if tier == "quick" else 6000, len(items))
         items += sequence_histories(rnd, len(items))
         items += truncated_inner_histories(rnd, len(items))
         items += odd_frames(rnd, len(items))
